@@ -278,6 +278,22 @@ Definition wf_entry_b (e : entry) : bool :=
       else true)
   && tar_encodable (hdr_of_stat (fst e)).
 Definition wf_listing_b (l : list entry) : bool := forallb wf_entry_b l.
+
+(* the WRITE domain is wider: a link name may also sit on a fifo or a device (a second name
+   of such an inode; WriteTar makes it a hard-link member).  The header of such a member
+   cannot be inverted on its own (a '1' member carries no type), so the round-trip statements
+   keep the narrower domain above; everything about what WriteTar emits holds here. *)
+Definition wf_stat_wb (s : stat) : bool :=
+  mode_okb (st_mode s)
+  && (is_nil (st_linkname s) || negb (mode_is_dir (st_mode s)))
+  && negb (ends_with_sep (st_path s)).
+Definition wf_entry_wb (e : entry) : bool :=
+  wf_stat_wb (fst e)
+  && (if carries_size (fst e)
+      then (st_size (fst e) <? two63) && N.eqb (st_size (fst e)) (blen (snd e))
+      else true)
+  && tar_encodable (hdr_of_stat (fst e)).
+Definition wf_listing_wb (l : list entry) : bool := forallb wf_entry_wb l.
 (* a view is exportable when the listing WriteTar works on (after the hard-link reset) is *)
 Definition wf_view (v : list node) : Prop := wf_listing_b (reset_entries (walk_root v)) = true.
 
@@ -327,6 +343,11 @@ Definition spec_typeflag (k : ekind) (link : bool) : option N :=
   | KChar, false => Some TypeChar
   | KBlock, false => Some TypeBlock
   | KFifo, false => Some TypeFifo
+  (* a second name of a device / fifo inode (the walker's inode map gives it a Linkname too)
+     is a hard-link member like a second name of a regular file *)
+  | KChar, true => Some TypeLink
+  | KBlock, true => Some TypeLink
+  | KFifo, true => Some TypeLink
   | _, _ => None
   end.
 
